@@ -1,4 +1,5 @@
 """C18 — GFF3/GTF/BED round trip with escaping (DESIGN.md §5 C18)."""
+from .. import a10
 from .. import a7
 from .. import rules as R
 
@@ -146,6 +147,9 @@ def run(ctx):
             ctx.ok("C18.R3", "GTF values are quoted on both writer paths", "", fw.loc())
         else:
             ctx.violation("C18.R3", "C18.R3/unquoted/" + fw.key, "GTF value writer no longer writes the opening and closing quotation marks on every path", fw.loc())
+
+    ctx.rule("C18.R5", "A10 append-buffer discipline: GFF/GTF line readers reset the line buffer before every appended line (incl. the blank-line skip loop)")
+    a10.discipline_rule(ctx, "C18.R5", r"^<?noodles_(gff|gtf)::", 6)
 
     ctx.rule("C18.R4", "owned GFF record is built from the lazy accessors (shared path)")
     fc = ctx.anchor("C18.R4", "noodles_gff::feature::record_buf::convert::<impl noodles_gff::feature::record_buf::RecordBuf>::try_from_feature_record")
